@@ -197,7 +197,9 @@ class FieldSpec:
         if self.rename is not None:
             in_names = (self.rename,)
         elif self.aliases is not None:
-            in_names = (name, *(alias for alias in self.aliases if alias != name))
+            # aliases are additional names: keep the field's own name(s), renamed like any other field's
+            names = tuple(rename_field(name, style) for style in in_rename) if in_rename is not None else (name,)
+            in_names = (*names, *(alias for alias in self.aliases if alias not in names))
         elif self.in_names is not None:
             in_names = self.in_names
         else:
